@@ -148,6 +148,8 @@ def run_coqchk(pid):
 
 # ----------------------------------------------------------------- running cases
 
+HUNG = []     # ids of cases the implementation never came back from
+
 def run_cases(case_lines, tag):
     """run all cases on implementation and model (sharded); returns (impl_lines, model_lines) dicts by id"""
     tmp = os.path.join(BUILD, 'run', tag)
@@ -167,8 +169,31 @@ def run_cases(case_lines, tag):
                               shell=True, stdout=subprocess.PIPE, stderr=subprocess.STDOUT)
         procs.append((cf, p1, p2))
     impl, model = {}, {}
+    deadline = time.time() + (900 if 'thorough' not in tag else 14400)
     for cf, p1, p2 in procs:
-        o1, _ = p1.communicate()
+        try:
+            o1, _ = p1.communicate(timeout=max(5, deadline - time.time()))
+        except subprocess.TimeoutExpired:
+            # the implementation did not come back from a case (a call that never returns): the case is the first one
+            # of the shard without an output line; it is reported as a hang, the rest of the shard is not run
+            p1.kill()
+            p1.communicate()
+            done = set()
+            if os.path.exists(cf + '.impl'):
+                done = set(l.split(' ', 1)[0] for l in open(cf + '.impl') if l.strip())
+            hung = None
+            with open(cf + '.impl', 'a') as f:
+                for l in open(cf):
+                    k = l.split(' ', 1)[0]
+                    if l.strip() and k not in done:
+                        if hung is None:
+                            hung = k
+                            f.write('%s HANG\n' % k)
+                        else:
+                            f.write('%s NOTRUN\n' % k)
+            HUNG.append(hung)
+            o1 = b''
+            p1.returncode = 0
         o2, _ = p2.communicate()
         if p1.returncode != 0:
             raise Machinery('harness failed on %s: %s' % (cf, o1.decode(errors='replace')[-500:]))
@@ -278,6 +303,11 @@ def main():
     for k in ids:
         if k not in impl or k not in model:
             raise Machinery('case %s missing from an output' % k)
+        if impl[k] == 'NOTRUN':
+            continue          # behind a hung case in its shard
+        if impl[k] == 'HANG':
+            diffs.append(k)   # a call that never returned
+            continue
         if byid[k].split(' ', 2)[1:2] in (['T'], ['S']):
             continue          # concurrent C-API runs: judged by the linearisation monitor, not replayed on the model
         if impl[k] != model[k]:
@@ -287,6 +317,8 @@ def main():
     mon_count = 0
     for mon in spec.get('monitors', []):
         for k in ids:
+            if impl[k] in ('HANG', 'NOTRUN'):
+                continue
             r = mon(byid[k], impl[k])
             mon_count += 1
             if r:
